@@ -68,6 +68,8 @@ type Env struct {
 	Multi func(env *Env, c *ast.CallExpr) ([]*Val, bool)
 	// MapOk answers "v, ok := m[k]" for maps whose content the rule chooses (nil = unsupported)
 	MapOk func(env *Env, ix *ast.IndexExpr) (val *Val, ok bool, handled bool)
+	// MapStore is told about "m[k] = v" (true = handled; nil = unsupported)
+	MapStore func(env *Env, ix *ast.IndexExpr, v *Val) bool
 	// RangeOnce: a range statement is evaluated for one representative element (its variables stay unbound): for
 	// search loops whose body does not depend on the element under the rule's hooks - "some element satisfies P"
 	RangeOnce bool
@@ -75,7 +77,7 @@ type Env struct {
 }
 
 func (env *Env) child(pkg *packages.Package) *Env {
-	return &Env{P: env.P, Pkg: pkg, Vars: map[types.Object]*Val{}, Hook: env.Hook, Multi: env.Multi, MapOk: env.MapOk, RangeOnce: env.RangeOnce, depth: env.depth + 1}
+	return &Env{P: env.P, Pkg: pkg, Vars: map[types.Object]*Val{}, Hook: env.Hook, Multi: env.Multi, MapOk: env.MapOk, MapStore: env.MapStore, RangeOnce: env.RangeOnce, depth: env.depth + 1}
 }
 
 type evalErr struct{ msg string }
@@ -725,6 +727,9 @@ func (env *Env) assignTo(l ast.Expr, v *Val) (ok bool) {
 			return true
 		}
 	case *ast.IndexExpr:
+		if env.MapStore != nil && env.MapStore(env, lx, v) {
+			return true
+		}
 		// an element the hooks model as one value (dirs[i]): the element takes the value
 		if ev := env.eval(lx); ev != nil && v != nil && ev.Fields != nil {
 			*ev = *v
